@@ -4,6 +4,8 @@
 //! The statement text is rendered from (instr, target, variant seed) by harness/src/stmtgen.rs
 //! (letter case, register aliases, immediate forms incl. constants defined before/after, operand order)
 //! and assembled by the real Context at `.addr <addr>`.
+#[path = "../projrun.rs"]
+mod projrun;
 use trion::arm6m::asm::{ImmReg, Instruction};
 use trion::arm6m::reg::Register;
 use verif_harness::asmrun::*;
@@ -47,7 +49,20 @@ fn run_case(case: &str) -> String
 		r.stmt = format!("{} {};", mn, parts.join(", "));
 	}
 	let src = format!("{}.addr 0x{:X};\n{}\n{}", r.pre, addr, r.stmt, r.post);
-	let res = run_pipeline(src.as_bytes(), "c04.asm");
+	// optional trailing "@": the statement stands in an INCLUDED file; every constant name in it is written `(NAME + ENT9)` with
+	// ENT9 (= 0) imported from the includer, which gives it its value only after the include; the includer holds private
+	// constants of the same names with other values.  The statement still means what it meant.
+	let names: Vec<String> = { let mut v = vec![]; for l in r.pre.lines().chain(r.post.lines()) { if let Some(x) = l.strip_prefix(".const ") { if let Some(c) = x.find(',') { v.push(x[..c].trim().to_string()); } } } v };
+	let res = if t.last() == Some(&"@") && !names.is_empty()
+	{
+		let mut stmt = r.stmt.clone();
+		for n in &names { stmt = stmt.replace(n.as_str(), &format!("({} + ENT9)", n)); }
+		let decoys: String = names.iter().enumerate().map(|(k, n)| format!(".const {}, {};\n", n, 0x40 + 4 * k)).collect();
+		let main = format!("{}.global ENT9;\n.include \"sub.asm\";\n.const ENT9, 0;\n", decoys);
+		let sub = format!(".import ENT9;\n{}.addr 0x{:X};\n{}\n{}", r.pre, addr, stmt, r.post);
+		projrun::Project{files: vec![("c04.asm".into(), main.into_bytes()), ("sub.asm".into(), sub.into_bytes())], root: "c04.asm".into()}.run()
+	}
+	else { run_pipeline(src.as_bytes(), "c04.asm") };
 	let bytes = match res.regions.iter().find(|(a, _)| *a == addr) { Some((_, d)) => hex_bytes(d), None => "-".into() };
 	format!("src={} | asm={} bytes={} diags={} biased={}{}", hex_bytes(src.as_bytes()), res.fmt_status(), bytes, res.fmt_diags(), nbiased, if ovr.is_empty() { String::new() } else { format!(" ovr={}", ovr) })
 }
@@ -207,6 +222,7 @@ fn main()
 				_ => None,
 			};
 			emit!(addr, target, &i, &mut rng, &mut out);
+			if h % 5 == (seed % 5) as u32 { emit_x(addr, target, &i, &mut rng, &mut out, 0, 0, " @"); }
 		}
 	}}
 	// (0c) near-miss identifiers where the syntax wants one particular name: CPS flag, barrier option, special register
